@@ -274,7 +274,7 @@ PROPS["C09"] = {
                    "arrival order occurs; every store outcome is judged (newer never 'replaced', older never "
                    "accepted, equal either), and after every step every id, holder lookup, marker and index count "
                    "is compared with the model and every address must have at most one retrievable event; lookups "
-                   "at addresses never used must find nothing; author+kind and #d queries are checked at the end."),
+                   "at addresses never used must find nothing; author+kind and #d queries are checked at the end. Enumerated part: all 1,296 (thorough 7,776) sequences of four (five) operations out of store-a-version@1/2/3 and own-address-deletion@1/2/3 on a replaceable and a parameterised address run under the same oracles."),
     "level_note": DB_NOTE,
     "legs": lambda tier: db_legs("c09", tier, parallel_thorough=6),
     "rule": hist_rule("profile replace", "at least two distinct addresses were used"),
@@ -296,7 +296,7 @@ PROPS["C10"] = {
                    "scenarios of C14's catalogue (request vs store of its target, both orders, e and a forms), parks "
                    "the first operation at every hit of every verif point while the other runs or blocks, and "
                    "requires that an event of the other author whose store returned an offset is retrievable and "
-                   "unmarked afterwards, and that the other author's address carries no marker."),
+                   "unmarked afterwards, and that the other author's address carries no marker. Enumerated part: all 3,125 (thorough 15,625) sequences of five (six) operations out of store X / own deletion request naming X / another author's request naming X / remove_event(X) / unrelated store run under the same oracles. Directed fault: the same requests arrive while every LMDB reader slot is taken (Store::read_txn handed out until it fails)."),
     "level_note": DB_NOTE,
     "legs": lambda tier: db_legs("c10", tier, parallel_thorough=6) + [leg("conc", "release", ["c10conc"], timeout=900)],
     "rule": hist_rule("profile foreign-delete", "at least one kind-5 request was guarded"),
@@ -311,7 +311,7 @@ PROPS["C11"] = {
                    "newer events, reopen and rebuild. Every store of a covered event must be refused as deleted, "
                    "events newer than every accepted deletion must not be, every covered event must be unretrievable "
                    "by every path after every step, and the deletion time reported for every address ever named is "
-                   "sampled after every step and must never decrease."),
+                   "sampled after every step and must never decrease. Enumerated part: all 1,296 (thorough 7,776) sequences of four (five) operations out of store-a-version@1/2/3 and own-address-deletion@1/2/3 on a replaceable and a parameterised address run under the same oracles. Enumerated part: all 3,125 (thorough 15,625) sequences of five (six) operations out of store X / own deletion request naming X / another author's request naming X / remove_event(X) / unrelated store run under the same oracles."),
     "level_note": DB_NOTE,
     "legs": lambda tier: db_legs("c11", tier, parallel_thorough=6),
     "rule": hist_rule("profile delete", "at least one id or address marker exists at the end"),
@@ -327,7 +327,7 @@ PROPS["C12"] = {
                    "stage (after pre-removal, after append, after index, after the j-th deletion tag, between the two "
                    "de-index steps, before commit). A snapshot of every id lookup, marker, holder lookup, a battery "
                    "of queries per index plan, index entry counts and extra tables is taken before each store and "
-                   "must be identical afterwards whenever the store returned an error."),
+                   "must be identical afterwards whenever the store returned an error. Enumerated part: all 1,296 (thorough 7,776) sequences of four (five) operations out of store-a-version@1/2/3 and own-address-deletion@1/2/3 on a replaceable and a parameterised address run under the same oracles. Enumerated part: all 3,125 (thorough 15,625) sequences of five (six) operations out of store X / own deletion request naming X / another author's request naming X / remove_event(X) / unrelated store run under the same oracles. Directed fault: the same requests arrive while every LMDB reader slot is taken (Store::read_txn handed out until it fails)."),
     "level_note": DB_NOTE + " event_bytes / disk usage are deliberately not part of the snapshot (failed stores leak appended bytes by design).",
     "legs": lambda tier: db_legs("c12", tier, parallel_thorough=6),
     "rule": hist_rule("profile failing-stores", "at least one failing store was snapshotted"),
@@ -376,7 +376,7 @@ PROPS["C18"] = {
                    "ids and vanish of present and absent authors; after every step all ids, holders, markers, index "
                    "counts and tables are compared with the model (exactly the targets are gone), removed events "
                    "resubmitted must not be refused as duplicate or deleted, ephemeral kinds must store Ok, read "
-                   "back by offset and never be returned by id or query."),
+                   "back by offset and never be returned by id or query. Enumerated part: all 3,125 (thorough 15,625) sequences of five (six) operations out of store X / own deletion request naming X / another author's request naming X / remove_event(X) / unrelated store run under the same oracles."),
     "level_note": DB_NOTE,
     "legs": lambda tier: db_legs("c18", tier, parallel_thorough=6),
     "rule": hist_rule("profile removal", "at least one present event was removed or vanished"),
